@@ -179,6 +179,7 @@ func checkC10(c *Ctx, r *Report) {
 	checkDebSigning(c, r, pa)
 	checkAPKSigning(c, r, pa)
 	checkRPMSigning(c, r, pa)
+	checkKeyRead(c, r)
 	checkTypedFailures(c, r, pa)
 }
 
@@ -642,6 +643,78 @@ func checkAPKSigning(c *Ctx, r *Report, pa *provAnalysis) {
 		})
 	}
 	r.Check(okName, "F12-apk", "apk: signature member is .SIGN.RSA.<key name>.rsa.pub", c.pos(fn.Pos()), "the member name must be built from the configured key name (default: maintainer address) with the .rsa.pub suffix")
+	// the suffix test and the suffix appended are the same constant
+	for _, f := range sortedFuncs(c, c.Reach(fn)) {
+		appended := ""
+		forEachInstr(f, func(in ssa.Instruction) {
+			if bo, ok := in.(*ssa.BinOp); ok && bo.Op == token.ADD && strings.HasSuffix(constOrEmpty(bo.Y), ".pub") {
+				appended = constOrEmpty(bo.Y)
+			}
+		})
+		if appended == "" {
+			continue
+		}
+		okSuffix := appended == ".rsa.pub"
+		tests := 0
+		forEachInstr(f, func(in ssa.Instruction) {
+			if call, ok := in.(*ssa.Call); ok && calleeIs(call, "strings", "", "HasSuffix") {
+				if s := constOrEmpty(call.Call.Args[1]); strings.Contains(s, "pub") {
+					tests++
+					if s != appended {
+						okSuffix = false
+					}
+				}
+			}
+		})
+		r.Check(okSuffix && tests > 0, "F12-apk", "apk: .rsa.pub is appended unless the key name already ends in exactly .rsa.pub", c.pos(f.Pos()),
+			fmt.Sprintf("suffix appended %q; the test that decides whether to append it must look for the same suffix (%d test(s) found)", appended, tests))
+	}
+}
+
+// checkKeyRead: every exported signing function of internal/sign that takes a
+// key file reads that file on every path to a successful return — the key
+// used is the content of the configured file at signing time (no caching).
+func checkKeyRead(c *Ctx, r *Report) {
+	n := 0
+	for _, fn := range c.ModFuncs {
+		if c.funcPkgPath(fn) != signPath || fn.Parent() != nil {
+			continue
+		}
+		o, ok := fn.Object().(*types.Func)
+		if !ok || !o.Exported() || !strings.Contains(fn.Name(), "Sign") {
+			continue
+		}
+		hasKey := false
+		for _, p := range fn.Params {
+			if strings.Contains(strings.ToLower(p.Name()), "keyfile") {
+				hasKey = true
+			}
+		}
+		if !hasKey {
+			continue
+		}
+		targets := []*ssa.Function{fn}
+		// a constructor that returns the signer closure: the closure is what signs
+		for _, b := range fn.Blocks {
+			if ret, ok := b.Instrs[len(b.Instrs)-1].(*ssa.Return); ok && len(ret.Results) == 1 {
+				if mc, ok := ret.Results[0].(*ssa.MakeClosure); ok {
+					targets = []*ssa.Function{mc.Fn.(*ssa.Function)}
+				}
+			}
+		}
+		for _, t := range targets {
+			n++
+			ev := newEvaluator(c)
+			fr := ev.Explore(t, make([]AV, len(t.Params)))
+			ok := fr.MustReach(func(in ssa.Instruction, _ *Frame) bool {
+				call, isC := in.(*ssa.Call)
+				return isC && calleeIs(call, "os", "", "ReadFile")
+			})
+			r.Check(ok, "K-key-read", "key file read on every signing call: "+c.funcKey(t), c.pos(t.Pos()),
+				"every path to a successful return must read the configured key file; a path that signs without reading it (a cached or stale key) produces a signature that need not match the configured key")
+		}
+	}
+	r.Floor("K-key-read", n, 4)
 }
 
 // variadicOrdered returns the elements of a variadic slice in index order.
